@@ -153,6 +153,13 @@ def k2_queries(num, tier, only=None):
                         q = plan.k2_query(cont, op, n, num, ts, timeout=cfg['k2_timeout'], extra={'KF_TTL0': 1}, tag='_ttl0')
                         q.meta['kf_probe'] = 'ut-ttl0'
                         qs.append(q)
+        # one capacity higher for the cheap methods of the heavier containers, invariant and witness only: a back-pointer
+        # slip in erase / lookup paths that needs a free slot *and* two other residents (capacity 3) shows here
+        if cont not in LIGHT and tier == 'quick':
+            for op in plan.ops_of(cont):
+                if op in ('erase', 'find', 'clean', 'clear', 'updttl'):
+                    for p in (0, 99):
+                        qs.append(plan.k2_query(cont, op, 3, p, 'yes', timeout=cfg['k2_timeout']))
     return qs
 
 
@@ -302,7 +309,8 @@ def lift_and_replay(ev, num, q):
     elif m['kind'] == 'k5' and m['mode'] == 3:
         lines = core.state_lines(vals, 2, 'kind twin')
     else:
-        lines = core.state_lines(vals, 2 if m['kind'] == 'k2x2' else 1)
+        # an invariant failure violates no clause by itself: let the replay search short continuations on the real build
+        lines = core.state_lines(vals, 2 if m['kind'] == 'k2x2' else 1, explore=(2 if m.get('prop') == 0 else 0))
     variant = 'san' if num == 8 else 'plain'
     ratio = q.defines.get('T_RATIO4')
     counted = ' counted=1' if q.defines.get('VAL_COUNTED') else ''
@@ -609,8 +617,8 @@ def finish(ev, num, tier, qs, known, extra_violations=()):
             print('INCONCLUSIVE property=%s %s' % (pid, msg))
     # ---- K2 counterexamples are (state, call) pairs, possibly unreachable.  Lifting, step 1: reach alpha(pre) on the
     # real build through the public API (state builder in replay.cpp), run the call there, evaluate the clauses.
-    for q, bad in k2_fail:
-        if q.meta['prop'] == 0 or q.meta['n'] > 4:
+    for q, bad in sorted(k2_fail, key=lambda x: x[0].meta['prop'] == 0):
+        if q.meta['n'] > 4 or q.meta['cont'] in reproduced_conts or num == 0:
             continue
         ok, path, info = lift_and_replay(ev, num, q)
         if ok:
